@@ -109,7 +109,7 @@ CHECKS["C01"] = dict(
                 "returns (one-shot timers/tasks: on handler entry); a stale invocation fails the cookie check, a stale access is an ASan "
                 "heap-use-after-free",
     assumptions=LOOP_ASSUME,
-    deadline=dict(quick=150, thorough=900),
+    deadline=dict(quick=240, thorough=900),
 )
 
 FD_OPS = "leave,fdreg,fdtry,fdtrybad,fdunreg,fdseth,feed,drain,fill,unfill,pclose,pshut,tkreg"
@@ -157,7 +157,7 @@ CHECKS["C03"] = dict(
                 "descriptor registered, the handler variant the one currently installed, the cookie the live one, and the band not yet "
                 "served in this iteration",
     assumptions=LOOP_ASSUME + ["abnormal terminations are not counted against this pure safety property (they make the run non-exhaustive)"],
-    deadline=dict(quick=150, thorough=900),
+    deadline=dict(quick=240, thorough=900),
 )
 TM_OPS = "leave,tmreg,tmunreg,feed,drain,tkreg,timepass,fdunreg"
 TM_SEEDS = "0,7,8,13,16,17,18,6,30"
@@ -313,7 +313,7 @@ CHECKS["C08"] = dict(
                 "when the owner blocks for good (lost wake-ups surface exactly there) and at exit; handler count never exceeds post count; "
                 "posters end with a 'done' post on which the owner joins them before anything is unregistered",
     assumptions=MT_ASSUME,
-    deadline=dict(quick=150, thorough=900),
+    deadline=dict(quick=300, thorough=900),
 )
 
 C14_ASSUME = MT_ASSUME + [
@@ -444,7 +444,7 @@ CHECKS["C11"] = dict(
                 "the registering thread; at idle every change is delivered (or its interest unregistered) and - while any interest exists - "
                 "every child reaped; the kill helper must never reach a pid whose termination was reaped; queued status records freed",
     assumptions=WAIT_ASSUME,
-    deadline=dict(quick=150, thorough=900),
+    deadline=dict(quick=240, thorough=900),
 )
 
 CHECKS["C19"] = dict(
